@@ -615,7 +615,7 @@ func suiteTtml(R *runner, r *rng) {
 		addT(expr+u, 0, 0, "ttml.time.random")
 	}
 	// malformed and unusual strings: model comparison only
-	bad := []string{"9007199254.740993s", "", " ", "1", "1.5", "1s ", " 1s", "1.s", ".5s", "1:2", "01:02", "1:2:3:4:5", "00:00:01.1234", "1e3s", "-1s", "+1s", "１s", "00:00:61", "1,5s", "00:00:01:", ":00:00:01", "00::01", "00:00:01:1:", "00:00:01:xx", "5 f", "5F", "5S", "5ms ", "5mss", "5hs", "00:00:01.5s", "1.2.3s", "99999999999999999999s", "0.99999999999999999999s", "00:00:01:99999999999999999999", "123456789012345f", "1234567890123456f", "9223372036854775807t", "00:00:01;05", "00:00:01.000:05", "00:00:01:05.5", "10f\n", "\n10f", "00:00:01\n", "0x10s", "1_0s", "1h30m", "12:34:56.789", "12:34:56:2", "123.4h", "6t", "00:01", "1:02", "a:b:c", "00:00:-1", "00:00:+1", "00: 00 : 01", "00:00:01 .5", "00:00:01. 5", "4294967296f", "18446744073709551616t"}
+	bad := []string{"2562047:47:16:24", "9007199254.740993s", "", " ", "1", "1.5", "1s ", " 1s", "1.s", ".5s", "1:2", "01:02", "1:2:3:4:5", "00:00:01.1234", "1e3s", "-1s", "+1s", "１s", "00:00:61", "1,5s", "00:00:01:", ":00:00:01", "00::01", "00:00:01:1:", "00:00:01:xx", "5 f", "5F", "5S", "5ms ", "5mss", "5hs", "00:00:01.5s", "1.2.3s", "99999999999999999999s", "0.99999999999999999999s", "00:00:01:99999999999999999999", "123456789012345f", "1234567890123456f", "9223372036854775807t", "00:00:01;05", "00:00:01.000:05", "00:00:01:05.5", "10f\n", "\n10f", "00:00:01\n", "0x10s", "1_0s", "1h30m", "12:34:56.789", "12:34:56:2", "123.4h", "6t", "00:01", "1:02", "a:b:c", "00:00:-1", "00:00:+1", "00: 00 : 01", "00:00:01 .5", "00:00:01. 5", "4294967296f", "18446744073709551616t"}
 	for _, s := range bad {
 		for _, rt := range [][2]int{{25, 4}, {0, 0}, {30, 10000000}, {-5, -5}} {
 			R.add(ttTimeObs(s, rt[0], rt[1], nil, "ttml.time.malformed"))
@@ -741,6 +741,12 @@ func suiteTtml(R *runner, r *rng) {
 			if len(it.Lines) > 1 {
 				o.NT = true
 			}
+		}
+		if r.chance(1, 8) {
+			// Items is a []*Item: WriteToTTML drops nil elements first (nonNilItems, write_ttml_items_c); the model input
+			// above is the list without them
+			s.Items = withNilItems(s.Items, r.intn(8))
+			R.count("ttml.write.nil_item")
 		}
 		var buf bytes.Buffer
 		var err error
